@@ -17,7 +17,9 @@ import subprocess as sp
 import rpload
 
 PROBE = r'''#!/bin/bash
-# records how it was called; exit code taken from PROBE_EXIT_<rank> or PROBE_EXIT
+# records how it was called; exit code taken from the file exit.<rank> of the probe directory.  The probe
+# directory is written into the script (a named environment un-sets whatever the agent's environment has)
+PROBE_DIR='@PROBE_DIR@'
 r=${RP_RANK:-0}
 printf '%s\0' "$#" "$@" > "$PROBE_DIR/argv.$r"
 env -0              > "$PROBE_DIR/env.$r"
@@ -25,12 +27,14 @@ pwd                 > "$PROBE_DIR/cwd.$r"
 echo "exe rank=$r" >> "$PROBE_DIR/log"
 echo "probe-stdout-$r"
 echo "probe-stderr-$r" 1>&2
-v="PROBE_EXIT_$r"
-exit ${!v:-${PROBE_EXIT:-0}}
+code=0
+test -f "$PROBE_DIR/exit.$r" && code=$(cat "$PROBE_DIR/exit.$r")
+exit $code
 '''
 
 CMD = r'''#!/bin/bash
 # usage: cmd <id> <exit code>: logs and returns the exit code
+PROBE_DIR='@PROBE_DIR@'
 echo "cmd $1 rank=${RP_RANK:--}" >> "$PROBE_DIR/log"
 exit $2
 '''
@@ -91,7 +95,8 @@ class Sandbox(object):
         self.probe  = self.root + '/bin/probe'
         self.cmd    = self.root + '/bin/cmd'
         self.mpirun = self.root + '/bin/mpirun'
-        write_x(self.probe, PROBE); write_x(self.cmd, CMD); write_x(self.mpirun, MPIRUN)
+        write_x(self.probe, PROBE.replace('@PROBE_DIR@', self.probe_dir)); write_x(self.cmd, CMD.replace('@PROBE_DIR@', self.probe_dir))
+        write_x(self.mpirun, MPIRUN)
 
     def clean_probe(self):
         shutil.rmtree(self.probe_dir, ignore_errors=True)
@@ -168,8 +173,11 @@ def run_task(rp, sb, p, task, launcher, env_extra=None, timeout=60):
     env = dict(os.environ)
     for k in list(env):
         if k.startswith('RP_') or k.startswith('PROBE_') or k.startswith('PMIX'): del env[k]
-    env['PROBE_DIR'] = sb.probe_dir
-    env.update(env_extra or {})
+    for k, v in (env_extra or {}).items():
+        if k.startswith('PROBE_EXIT_'):
+            open('%s/exit.%s' % (sb.probe_dir, k[len('PROBE_EXIT_'):]), 'w').write(str(v))
+        else:
+            env[k] = v
     old = dict(os.environ)
     os.environ.clear(); os.environ.update(env)
     try:
